@@ -78,17 +78,11 @@ def c05_literal(real, o5, tab, ctx):
     return c05.PROP.literal({"kind": "op"}, o, ctx)
 
 
-def extra(P, ctx, tier, only_terms=None):
+def evaluate_terms(P, ctx, terms, tag="bridge"):
+    """Prints every term's object both ways, evaluates drift / bmon and the two properties' own monitors.
+    Returns (stats, rows): rows[i] = {term, kind, lit, drift, composed, c05, c06} for every object that could be built."""
     import c05terms as T
     import c05ops as O
-    ok, log = fw.coq_build(["run/C06BridgeRun.vo", "run/C05Run.vo"], jobs=int(os.environ.get("VERIF_JOBS", "6")))
-    if not ok:
-        return [("bridge-build", "coq/run/C06BridgeRun.v (or run/C05Run.v) does not build", {"log": log[-1500:]})]
-    bad = fw.forbidden_gate(fw.coq_closure("run/C06BridgeRun.v"))
-    if bad:
-        return [("bridge-forbidden", "forbidden construct in the closure of run/C06BridgeRun.v", {"where": bad[:5]})]
-    rng = random.Random(ctx.seed * 1000003 + 60605)
-    terms = op_terms(P, rng, tier) if only_terms is None else only_terms
     saved = T.INTERN
     T.INTERN = P.g.intern                      # one interner for both printers
     lits, lits5, lits6, meta = [], [], [], []
@@ -110,7 +104,7 @@ def extra(P, ctx, tier, only_terms=None):
             except Exception as ex:            # noqa: BLE001 -- no C05 literal: an operation still to be completed
                 stats["c06_only"] += 1
                 lits.append(gapp("CBOnly", o6))
-                meta.append({"term": t, "kind": "only", "why": type(ex).__name__, "i5": None})
+                meta.append({"term": t, "kind": "only", "why": type(ex).__name__, "i5": None, "i6": None})
                 continue
             stats["by_class"][t[0]] = stats["by_class"].get(t[0], 0) + 1
             if t[0] in EXT_CLASSES:
@@ -133,34 +127,76 @@ def extra(P, ctx, tier, only_terms=None):
                 stats["c05_unwalkable"] += 1
             meta.append(m)
         stats["c05_cases"] = len(lits5)
-        res = fw.eval_cases(ctx.work, "run.C06BridgeRun", lits, shard=300, checks=("drift", "bmon"), tag="bridge")
-        res5 = fw.eval_cases(ctx.work, "run.C05Run", lits5, shard=150, checks=("corr", "mon"), tag="bridge5") if lits5 else {"corr": [], "mon": []}
-        res6 = fw.eval_cases(ctx.work, "run.C06Run", lits6, shard=300, checks=("corr", "mon"), tag="bridge6") if lits6 else {"corr": [], "mon": []}
+        none = {"corr": [], "mon": []}
+        res = fw.eval_cases(ctx.work, "run.C06BridgeRun", lits, shard=300, checks=("drift", "bmon"), tag=tag) if lits else {"drift": [], "bmon": []}
+        res5 = fw.eval_cases(ctx.work, "run.C05Run", lits5, shard=150, checks=("corr", "mon"), tag=tag + "5") if lits5 else none
+        res6 = fw.eval_cases(ctx.work, "run.C06Run", lits6, shard=300, checks=("corr", "mon"), tag=tag + "6") if lits6 else none
     finally:
         T.INTERN = saved
     drift, bmon = set(res["drift"]), set(res["bmon"])
     mon5, mon6 = set(res5["mon"]), set(res6["mon"])
-    out, drift_only = [], []
+    rows = []
     for i, m in enumerate(meta):
-        f5 = m.get("i5") is not None and m["i5"] in mon5
-        f6 = m.get("i6") is not None and m["i6"] in mon6
-        fb = i in bmon
-        if fb or f5 or f6:
-            what = "+".join(w for w, f in (("composed", fb), ("c05-monitor", f5), ("c06-monitor", f6)) if f)
+        rows.append({"term": m["term"], "kind": m["kind"], "why": m.get("why"), "lit": lits[i], "drift": i in drift, "composed": i in bmon,
+                     "c05": m["i5"] is not None and m["i5"] in mon5, "c06": m["i6"] is not None and m["i6"] in mon6})
+    stats.update(drift_checked=len(lits), bridge_monitor_failures=len(bmon), c05_monitor_failures=len(mon5),
+                 c06_monitor_failures=len(mon6), c05_corr_failures=len(res5["corr"]), c06_corr_failures=len(res6["corr"]))
+    return stats, rows
+
+
+def failing(r):
+    return "+".join(w for w, f in (("composed", r["composed"]), ("c05-monitor", r["c05"]), ("c06-monitor", r["c06"])) if f)
+
+
+def shrink_term(P, ctx, row, rounds=10):
+    """Greedy shrinking of a failing operation term with C06's own shrinker (same failure kind kept)."""
+    cur, what = row, failing(row)
+    for r in range(rounds):
+        cands = [c["op"] for c in P.shrink({"kind": "sig", "op": cur["term"]})][:60]
+        if not cands:
+            break
+        try:
+            _, rows = evaluate_terms(P, ctx, cands, tag="bshrink%d" % r)
+        except Exception:                      # noqa: BLE001
+            break
+        nxt = next((x for x in rows if failing(x) == what), None)
+        if nxt is None:
+            break
+        cur = nxt
+    return cur
+
+
+def extra(P, ctx, tier, only_terms=None):
+    ok, log = fw.coq_build(["run/C06BridgeRun.vo", "run/C05Run.vo"], jobs=int(os.environ.get("VERIF_JOBS", "6")))
+    if not ok:
+        return [("bridge-build", "coq/run/C06BridgeRun.v (or run/C05Run.v) does not build", {"log": log[-1500:]})]
+    bad = fw.forbidden_gate(fw.coq_closure("run/C06BridgeRun.v"))
+    if bad:
+        return [("bridge-forbidden", "forbidden construct in the closure of run/C06BridgeRun.v", {"where": bad[:5]})]
+    rng = random.Random(ctx.seed * 1000003 + 60605)
+    terms = op_terms(P, rng, tier) if only_terms is None else only_terms
+    stats, rows = evaluate_terms(P, ctx, terms)
+    out, drift_only, seen = [], [], set()
+    for r in rows:
+        what = failing(r)
+        if what:
+            sig = "ops:bridge:%s:%s" % (what, r["term"][0])
+            if sig in seen or len(out) >= 4:
+                continue
+            seen.add(sig)
+            small = shrink_term(P, ctx, r) if only_terms is None else r
             out.append(("bridge-" + what, "the facts the implementation reports for this operation are not the ones the "
-                        "specification assigns (composition C05 x C06; %s%s)" % (what, "; the printers disagree too" if i in drift else ""),
-                        {"failing_input": m["term"], "signature": "ops:bridge:%s:%s" % (what, m["term"][0]), "literal": lits[i][:1500],
+                        "specification assigns (composition C05 x C06; %s%s)" % (what, "; the printers disagree too" if small["drift"] else ""),
+                        {"failing_input": small["term"], "signature": sig, "literal": small["lit"][:1500],
                          "replay_cmd": "PYTHONHASHSEED=0 PYTHONPATH=<repo>/hugr-py/src /venv/bin/python harness/c06bridge.py <this file>"}))
-        elif i in drift:
-            drift_only.append({"term": m["term"], "kind": m["kind"], "why": m.get("why")})
-    stats.update(drift_checked=len(lits), printer_drift=len(drift_only), printer_drift_examples=drift_only[:10],
-                 bridge_monitor_failures=len(bmon), c05_monitor_failures=len(mon5), c06_monitor_failures=len(mon6),
-                 c05_corr_failures=len(res5["corr"]), c06_corr_failures=len(res6["corr"]))
+        elif r["drift"]:
+            drift_only.append({"term": r["term"], "kind": r["kind"], "why": r["why"]})
+    stats.update(printer_drift=len(drift_only), printer_drift_examples=drift_only[:10])
     ctx.stats["bridge"] = stats
     if drift_only:
         ctx.notes.append("printer drift (C05 literal vs C06 literal of the same operation object, no monitor failing): %d of %d objects"
-                         % (len(drift_only), len(lits)))
-    return out[:5]
+                         % (len(drift_only), len(rows)))
+    return out
 
 
 def main():
